@@ -63,6 +63,9 @@ VecBearing(r)     == CircWithin360(r.v_pa_out, r.v_bear, AngTolUdeg)
 IntVecGreatCircle(r) == RelWithin(r.iv_r_out, r.iv_sep, LenTolPpm)
 IntVecBearing(r)     == CircWithin360(r.iv_pa_out, r.iv_bear, AngTolUdeg)
 IntEllGreatCircle(r) == RelWithin(r.ie_a_out, r.ie_sep, LenTolPpm)
+\* a helper object has no memory: a conversion at a neighbouring position gives, on a helper that has just been used,
+\* exactly what it gives on a fresh helper (difference of the returned pixel centre and lengths, in 1e-6 px / udeg)
+HelperHasNoMemory(r) == r.nb_diff = 0
 
 \* the pixel vector returned by sky2pix_vec ends, on the standard sky, a
 \* great-circle distance r from the origin in the direction pa East of North
